@@ -271,12 +271,12 @@ axiom('rowsum.mrowmul', forall([A_, v_, i_], T.rat(rowsum(mrowmul(A_, v_)), i_) 
                                [T.rat(rowsum(mrowmul(A_, v_)), i_)]), ['mrowmul'], 'algebra')
 axiom('mouter.shape', forall([v_, w_], z3.And(mrows(mouter(v_, w_)) == T.rlen(v_), mcols(mouter(v_, w_)) == T.rlen(w_)),
                              [mouter(v_, w_)]), ['mouter'], 'numpy')
-axiom('rowsum.mouter', forall([v_, w_, i_], T.rat(rowsum(mouter(v_, w_)), i_) == T.rat(v_, i_) * T.rsum(w_),
+axiom('rowsum.mouter', forall([v_, w_, i_], T.rat(rowsum(mouter(v_, w_)), i_) == T.rmul(T.rat(v_, i_), T.rsum(w_)),
                               [T.rat(rowsum(mouter(v_, w_)), i_)]), ['mouter'], 'algebra')
-axiom('rowsum.mscale', forall([x_, A_, i_], T.rat(rowsum(mscale(x_, A_)), i_) == x_ * T.rsum(mrow(A_, i_)),
+axiom('rowsum.mscale', forall([x_, A_, i_], T.rat(rowsum(mscale(x_, A_)), i_) == T.rmul(x_, T.rsum(mrow(A_, i_))),
                               [T.rat(rowsum(mscale(x_, A_)), i_)]), ['rowsum'], 'algebra')
 axiom('vdot.len1', forall([v_, w_], z3.Implies(z3.And(T.rlen(v_) == 1, T.rlen(w_) == 1),
-                                               vdot(v_, w_) == T.rat(v_, 0) * T.rat(w_, 0)), [vdot(v_, w_)]),
+                                               vdot(v_, w_) == T.rmul(T.rat(v_, 0), T.rat(w_, 0))), [vdot(v_, w_)]),
       ['vdot'], 'algebra')
 axiom('rsum.len1', forall([v_], z3.Implies(T.rlen(v_) == 1, T.rsum(v_) == T.rat(v_, 0)), [T.rsum(v_)]), ['rsum'],
       'definitional')
@@ -313,3 +313,69 @@ def _np_reshape(lib, run, recv, args, kw):
         _shape_guard(run, m * d == 1, 'cannot reshape array')
         return MatV(mat11(real(a)))
     raise Unsupported('np.reshape(%r)' % (a,))
+
+# ---- scatter of rows, list of vectors as a matrix, row-wise argmax
+mscatter = F('mscatter', Mat, ISeq, Mat, Mat)        # E[idx] = V
+axiom('mscatter.shape', forall([A_, u_, B_], z3.And(mrows(mscatter(A_, u_, B_)) == mrows(A_),
+                                                    mcols(mscatter(A_, u_, B_)) == mcols(A_)), [mscatter(A_, u_, B_)]),
+      ['mscatter'], 'numpy')
+axiom('mscatter.none', forall([A_, u_, B_], z3.Implies(ilen(u_) == 0, mscatter(A_, u_, B_) == A_), [mscatter(A_, u_, B_)]),
+      ['mscatter'], 'numpy')
+axiom('mscatter.all', forall([A_, B_], z3.Implies(z3.And(mrows(B_) == mrows(A_), mcols(B_) == mcols(A_)),
+                                                  mscatter(A_, iota(mrows(A_)), B_) == B_),
+                             [mscatter(A_, iota(mrows(A_)), B_)]), ['mscatter'], 'numpy')
+axiom('mT.at', forall([A_, i_, d_], mat_at(mT(A_), i_, d_) == mat_at(A_, d_, i_), [mat_at(mT(A_), i_, d_)]),
+      ['mtranspose'], 'numpy')
+rowargmax = F('rowargmax', Mat, ISeq)               # np.argmax(M, axis=1): first maximal column of every row (A4)
+axiom('rowargmax.len', forall([A_], ilen(rowargmax(A_)) == mrows(A_), [rowargmax(A_)]), ['rowargmax'], 'numpy')
+axiom('rowargmax.range', forall([A_, i_], z3.Implies(z3.And(0 <= i_, i_ < mrows(A_), mcols(A_) > 0),
+                                                     z3.And(0 <= iat(rowargmax(A_), i_), iat(rowargmax(A_), i_) < mcols(A_))),
+                                [iat(rowargmax(A_), i_)]), ['rowargmax'], 'numpy')
+axiom('rowargmax.first', forall([A_, i_, d_], z3.Implies(z3.And(0 <= i_, i_ < mrows(A_), 0 <= d_, d_ < mcols(A_)),
+                                                         z3.And(mat_at(A_, i_, d_) <= mat_at(A_, i_, iat(rowargmax(A_), i_)),
+                                                                z3.Implies(mat_at(A_, i_, d_) ==
+                                                                           mat_at(A_, i_, iat(rowargmax(A_), i_)),
+                                                                           iat(rowargmax(A_), i_) <= d_))),
+                                [(iat(rowargmax(A_), i_), mat_at(A_, i_, d_))]), ['rowargmax'], 'numpy')
+
+
+@reg('np.argmax')
+def _argmax(lib, run, recv, args, kw):
+    a = args[0]
+    ax = kw.get('axis', args[1] if len(args) > 1 else None)
+    if isinstance(a, MatV) and isinstance(ax, Num) and ax.concrete() == 1:
+        return SeqV('I', rowargmax(a.term))
+    raise Unsupported('np.argmax arguments')
+
+
+def mat_setitem(lib, run, base, key, v):
+    if isinstance(key, SeqV) and key.kind == 'I' and isinstance(v, MatV):
+        _shape_guard(run, z3.And(mrows(v.term) == ilen(key.term), mcols(v.term) == mcols(base.term)),
+                     'shape mismatch: value array could not be broadcast to indexing result')
+        return MatV(mscatter(base.term, key.term, v.term))
+    raise Unsupported('matrix item assignment %r' % (key,))
+
+
+def mat_of_rows(lib, run, o):
+    """np.array([v0, v1, ...]) of equally long vectors: one row per vector"""
+    from .lib import PV
+    M = fresh('stacked', Mat)
+    j = smt_bound('j', Int)
+    run.st.assume(mrows(M) == o.length)
+    run.st.assume(z3.ForAll([j], z3.Implies(z3.And(0 <= j, j < o.length),
+                                            z3.And(mrow(M, j) == PV.get_rseq(o.elems[j]),
+                                                   T.rlen(PV.get_rseq(o.elems[j])) == mcols(M))), patterns=[mrow(M, j)]))
+    return MatV(M)
+
+
+from .smt import bound as smt_bound     # noqa
+
+# rowargmax.first read at the column of an arm (an instance of it, stated with a trigger E-matching can find)
+axiom('rowargmax.arm', forall([A_, i_, s_, z3.Const('a', Arm)],
+                              z3.Implies(z3.And(T.amem(s_, z3.Const('a', Arm)), T.alen(s_) == mcols(A_), 0 <= i_, i_ < mrows(A_)),
+                                         z3.And(mat_at(A_, i_, T.apos(s_, z3.Const('a', Arm))) <=
+                                                mat_at(A_, i_, iat(rowargmax(A_), i_)),
+                                                z3.Implies(mat_at(A_, i_, T.apos(s_, z3.Const('a', Arm))) ==
+                                                           mat_at(A_, i_, iat(rowargmax(A_), i_)),
+                                                           iat(rowargmax(A_), i_) <= T.apos(s_, z3.Const('a', Arm))))),
+                              [(iat(rowargmax(A_), i_), T.amem(s_, z3.Const('a', Arm)))]), ['rowargmax'], 'numpy')
